@@ -8,6 +8,8 @@ LINK engine with a byzantine peer, enumerated pairs.
      algorithm A whose signature is made and labelled with B over the correct
      session blob, for every pair, incl. certificate forms; with and without B
      (or A) in the victim server's disabled pubkeys.
+ (c) as (a), but the first exchange is honest and the substitution happens in a
+     re-key with the same host key (initiated by either side).
 Oracle: the victim accepts iff B == N (resp. B == A without the cert suffix)
 and that algorithm is enabled on the victim."""
 import os
@@ -35,7 +37,11 @@ CERT = "-cert-v01@openssh.com"
 AUTH_DECL = RSA_ALGOS + tuple(a + CERT for a in RSA_ALGOS)
 AUTH_CASES = [("rsa", a, b, dis) for a in AUTH_DECL for b in RSA_ALGOS for dis in ("none", "B", "A", "A+probe", "B+probe")] + \
              [("ec", a, b, "none") for a in EC_ALGOS for b in EC_ALGOS]
-CASES = [("host",) + c for c in HOST_CASES] + [("auth",) + c for c in AUTH_CASES]
+# the same pairs in a RE-KEY: the first exchange is honest, the substitution happens in a later exchange with the
+# same host key (a verifier that trusts what it checked in the first exchange must not skip the check then)
+REKEY_CASES = [("rsa", n, b, dis) for n in RSA_ALGOS for b in RSA_ALGOS for dis in (False, True)] + \
+              [("ec", n, b, False) for n in EC_ALGOS for b in EC_ALGOS if b != n][:6] + [("ec", n, n, False) for n in EC_ALGOS]
+CASES = [("host",) + c for c in HOST_CASES] + [("auth",) + c for c in AUTH_CASES] + [("host-rekey",) + c for c in REKEY_CASES]
 BUDGET = {"quick": {"runs": len(CASES) * 4, "wall": 55}, "thorough": {"runs": len(CASES) * 150, "wall": 560}}
 EXHAUSTIVE = True
 RULE = ("Enumerated: every (negotiated/declared algorithm, signature algorithm) pair for RSA incl. certificate "
@@ -69,17 +75,21 @@ class SubstitutingRSA(RSAKey):
 
 
 def relabel(key, newname):
-    """Adversary host key (ECDSA/Ed25519): honest signature bytes, other name."""
+    """Adversary host key (ECDSA/Ed25519): honest signature bytes, other name (attribute `label`; None = honest)."""
     cls = type(key)
 
     class Relabelled(cls):
+        label = newname
+
         def sign_ssh_data(self, data, algorithm=None):
             m = cls.sign_ssh_data(self, data, algorithm)
+            if self.label is None:
+                return m
             m.rewind()
             m.get_text()
             sig = m.get_binary()
             out = Message()
-            out.add_string(newname)
+            out.add_string(self.label)
             out.add_string(sig)
             return out
     k = Relabelled.__new__(Relabelled)
@@ -94,7 +104,60 @@ def scenario(sim):
     link = Link(sim, latency=(lat, lat))
     if case[0] == "host":
         return host_case(sim, link, case)
+    if case[0] == "host-rekey":
+        return host_rekey_case(sim, link, case)
     return auth_case(sim, link, case)
+
+
+def host_rekey_case(sim, link, case):
+    _, fam, N, B, dis = case
+    base = ssh.key(HKEY[N])
+    if fam == "rsa":
+        hk = SubstitutingRSA(key=base.key)
+        hk.sub = N
+    else:
+        hk = relabel(base, B)
+        hk.label = None
+    ckw = {"disabled_algorithms": {"keys": [B]}} if (dis and B != N) else {}
+    p = ssh.Pair(sim, link=link, host_keys=(hk,), client_kw=ckw)
+    ssh.configure(p.tc, hostkey_algo=N, kex="curve25519-sha256@libssh.org")
+    desc = {"side": "host-key, re-key", "negotiated": N, "signature_algorithm_in_rekey": B, "B_disabled_on_client": dis}
+    p.start(timeout=30)
+    p.wait_server()
+    if not (p.tc.is_active() and p.tc.initial_kex_done):
+        raise Violation(("C07", "honest-host-key-signature-rejected", N), "honest first exchange with %s failed" % N, desc)
+    p.auth_password()
+    # from now on the server's signatures use / are labelled B
+    if fam == "rsa":
+        hk.sub = B
+    else:
+        hk.label = B if B != N else None
+    who = sim.choose(2)
+    err = None
+    try:
+        (p.tc if who == 0 else p.ts).renegotiate_keys()
+    except Exception as e:
+        err = e
+    ssh.quiesce(sim, [link], (), settle=0.2, limit=10)
+    ok = False
+    if p.tc.is_active() and p.ts.is_active():
+        try:
+            ch = p.tc.open_session(timeout=10)
+            sch = p.ts.accept(10)
+            ok = sch is not None and ssh.echo_round(sim, ch, sch, 100, 100)
+        except Exception as e:
+            err = err or e
+    expect = (B == N)
+    if ok and not expect:
+        raise Violation(("C07", "host-key-signature-algorithm-substituted", fam, "disabled" if dis else "enabled", "in-rekey"),
+                        "client completed a RE-KEY (and the session carries on) although %s was negotiated and the "
+                        "signature uses %s%s" % (N, B, " (which the client has disabled)" if dis else ""), desc)
+    if not ok and expect:
+        raise Violation(("C07", "honest-host-key-signature-rejected", N, "in-rekey"),
+                        "honest re-key with %s failed: %r" % (N, err), desc)
+    sim.probe("rekey_accepted" if ok else "rekey_rejected")
+    p.close()
+    return {"sample": desc, "case_key": repr(case), "nontrivial": True, "counts": ["host-rekey"]}
 
 
 def host_case(sim, link, case):
